@@ -80,6 +80,39 @@ def _fn_takes_over(why):
     takes_over("SvgFn", why)
 
 
+def _effect_classes_strict(wf, binds, eff):
+    """write_fg_span, the known shape: `if let Some(class) = <colour>.as_deref() { classes.push(class); }` for the fg and the
+    underline colour, then one `if <test> { classes.push("<name>"); }` per effect, where <test> is either a boolean local
+    bound above (`let bold = effects.contains(anstyle::Effects::BOLD);` .. `if bold {`) or the same call spelled in the
+    condition (`if effects.contains(anstyle::Effects::BOLD) {`): the SAME (effect, class) datum.  None when the text is
+    not of this shape or does not account for every `anstyle::Effects::X` of the body."""
+    pushes = list(re.finditer(r"if\s+(?:let Some\(class\) = (\w+)\.as_deref\(\)|(\w+)|effects\.contains\(anstyle::Effects::(\w+)\))\s*\{\s*"
+                              r"classes\.push\((?:class|\"([^\"\\]*)\")\);\s*\}", wf))
+    if len(pushes) != len(re.findall(r"classes\.push\(", wf)):
+        return None
+    if len(pushes) < 2 or pushes[0].group(1) != "fg_color" or pushes[1].group(1) != "underline_color":
+        raise GenError("write_fg_span: expected the fg colour class, then the underline colour class first")
+    out = []
+    for p in pushes[2:]:
+        var, inline, lit = p.group(2), p.group(3), p.group(4)
+        if lit is None or (inline is None and (var is None or var not in binds)):
+            return None
+        const = inline if inline is not None else binds[var]
+        out.append((eff(const, "write_fg_span"), _name(lit, "write_fg_span class"), const))
+    # (a bound boolean that is never used does not count)
+    unused = [c for v, c in binds.items() if len(re.findall(r"\b%s\b" % re.escape(v), wf)) == 1]
+    if sorted([c for _, _, c in out] + unused) != sorted(re.findall(r"anstyle::Effects::(\w+)", wf)):
+        return None
+    return out
+
+
+def _effect_classes_loose(wf, eff):
+    seq = [(m.group(1), m.group(2)) for m in re.finditer(r"anstyle::Effects::(\w+)|(?<![#\w])\"([a-z][a-z0-9-]*)\"", wf)]
+    if not seq or len(seq) % 2 or any((c is None) != (i % 2 == 1) for i, (c, _l) in enumerate(seq)):
+        raise GenError("write_fg_span: cannot pair the effect constants with the class names (they do not alternate)")
+    return [(eff(seq[i][0], "write_fg_span"), _name(seq[i + 1][1], "write_fg_span class"), seq[i][0]) for i in range(0, len(seq), 2)]
+
+
 def gen_svg():
     src = _drop_line_comments(read(SRC))
     effects = _effect_names()
@@ -173,21 +206,14 @@ def gen_svg():
     if not re.search(r"let fg_color = style\.get_fg_color\(\)\.map\(\|c\| color_name\(FG_PREFIX, c\)\);", wf) or \
        not re.search(r"let underline_color = style\s*\.get_underline_color\(\)\s*\.map\(\|c\| color_name\(UNDERLINE_PREFIX, c\)\);", wf):
         _fn_takes_over("write_fg_span: colour class bindings not recognised")
-    # an effect test is either a boolean local bound above (`let bold = effects.contains(anstyle::Effects::BOLD);` .. `if bold {`)
-    # or the same call spelled in the condition (`if effects.contains(anstyle::Effects::BOLD) {`): the SAME (effect, class) datum
-    pushes = list(re.finditer(r"if\s+(?:let Some\(class\) = (\w+)\.as_deref\(\)|(\w+)|effects\.contains\(anstyle::Effects::(\w+)\))\s*\{\s*"
-                              r"classes\.push\((?:class|\"([^\"\\]*)\")\);\s*\}", wf))
-    if len(pushes) != len(re.findall(r"classes\.push\(", wf)):
-        raise GenError("write_fg_span: a classes.push(...) of unrecognised shape")
-    if len(pushes) < 2 or pushes[0].group(1) != "fg_color" or pushes[1].group(1) != "underline_color":
-        raise GenError("write_fg_span: expected the fg colour class, then the underline colour class first")
-    eff_classes = []
-    for p in pushes[2:]:
-        var, inline, lit = p.group(2), p.group(3), p.group(4)
-        if lit is None or (inline is None and (var is None or var not in binds)):
-            raise GenError("write_fg_span: push of unrecognised shape %r" % p.group(0)[:60])
-        const = inline if inline is not None else binds[var]
-        eff_classes.append((eff(const, "write_fg_span"), _name(lit, "write_fg_span class"), const))
+    eff_classes = _effect_classes_strict(wf, binds, eff)
+    if eff_classes is None:
+        # the pushes are spelled another way (a helper that pushes, a table + loop, ..): the DATA is still read off the
+        # text -- the constants `anstyle::Effects::X` and the plain class-name literals must alternate, which pairs them --
+        # and what the function does with them is SvgFn's translation, proved against this very table (Proofs/SvgGen.v
+        # g_svg_write_fg_span_eq): pairs read off wrongly make that proof fail, they cannot make it pass
+        _fn_takes_over("write_fg_span: the classes.push(...) statements are not of the known shape")
+        eff_classes = _effect_classes_loose(wf, eff)
     if len(set(e for e, _, _ in eff_classes)) != len(eff_classes):
         raise GenError("write_fg_span: an effect is pushed twice")
     if not re.search(r'let classes = classes\.join\(" "\);', wf) or not re.search(r"let fragment = html_escape::encode_text\(fragment\);", wf):
